@@ -24,6 +24,14 @@ class LeaderFam(Family):
                 lines += [f"rr {n} {v}" for v in range(s, s + 140)]
             yield (f"rr-exhaustive-n{n}", lines)
         yield ("rr-n0-outside", ["rr 0 0", "rr 0 5"])
+        # (1b) one instance asked while the configuration is still being filled (k of n replicas known) and again when
+        #      it is complete, against an instance built afterwards: no answer may be remembered (C16-r6m1)
+        lines = []
+        for n in range(1, 17 if quick else 65):
+            for k in range(1, n + 1):
+                for v in (0, 1, n - 1, n, 2 * n + 1, 4095):
+                    lines.append(f"rrgrow {k} {n} {v % 7} {v}")
+        yield ("rr-config-grows", lines)
         # (2) fixed leader, every id 0..65 (0 and 65 are not replicas of any generated cluster: the scheme
         #     returns what was configured) and the largest id
         lines = []
@@ -78,7 +86,7 @@ class LeaderFam(Family):
         yield ("rr-random", lines)
 
     def nontrivial_keys(self, lines, impl_out):
-        return [l for l, o in zip(lines, impl_out) if o.startswith("leaders=") or o.startswith("leader=")]
+        return [l for l, o in zip(lines, impl_out) if o.startswith("leaders=") or o.startswith("leader=") or o.startswith("first=")]
 
     def exhaustive(self, tier):
         return True
